@@ -737,10 +737,23 @@ func genPipeProbes(r *rng) []pProbe {
 			p.Flavour = "q"
 			p.Ins = []inSpec{{NS: "n1", Typ: "T", Kind: 3}}
 
-			if r.chance(2, 3) {
+			// up to two mapped inputs (plain and destroy-ready, by kind and by id) - also on the same kind, where every
+			// declared input keeps its own wake-up rule
+			seen := map[string]bool{}
+
+			for range r.intn(3) {
 				in := mkIn(true)
-				if in.Kind != 3 {
-					in.ID = nil
+				if in.Kind == 3 {
+					continue
+				}
+
+				k := in.Typ + "/" + fmt.Sprint(in.ID != nil)
+				if in.ID != nil {
+					k += *in.ID
+				}
+
+				if !seen[k] {
+					seen[k] = true
 					p.Ins = append(p.Ins, in)
 				}
 			}
@@ -844,6 +857,20 @@ func TestC05(t *testing.T) {
 			Probes: []pProbe{{Name: "c0", Flavour: "r", Ins: []inSpec{{NS: "n1", Typ: "T", ID: sp("a"), Kind: 2}, {NS: "n1", Typ: "T", ID: sp("b"), Kind: 0}}}},
 			Steps:  []pWrite{{Op: "quiesce"}, {Op: "create", Typ: "T", ID: "b"}, {Op: "quiesce"}, {Op: "touch", Typ: "T", ID: "b"}},
 		}})
+
+		// corpus: the same for a queue-based controller: a mapped input by id next to a mapped destroy-ready input on the
+		// same kind, declared in either order - a plain update of U/a must reach the mapper and the primary it names
+		for _, ins := range [][]inSpec{
+			{{NS: "n1", Typ: "T", Kind: 3}, {NS: "n1", Typ: "U", ID: sp("a"), Kind: 4}, {NS: "n1", Typ: "U", Kind: 5}},
+			{{NS: "n1", Typ: "T", Kind: 3}, {NS: "n1", Typ: "U", Kind: 5}, {NS: "n1", Typ: "U", ID: sp("a"), Kind: 4}},
+			{{NS: "n1", Typ: "T", Kind: 3}, {NS: "n1", Typ: "U", ID: sp("a"), Kind: 4}, {NS: "n1", Typ: "U", ID: sp("b"), Kind: 5}},
+		} {
+			cases = append(cases, c05Case{Kind: "run", Sc: pScenario{
+				Probes: []pProbe{{Name: "c0", Flavour: "q", Ins: ins}},
+				Steps: []pWrite{{Op: "create", Typ: "T", ID: "a"}, {Op: "create", Typ: "U", ID: "a"}, {Op: "quiesce"}, {Op: "touch", Typ: "U", ID: "a"}, {Op: "quiesce"},
+					{Op: "create", Typ: "U", ID: "b"}, {Op: "quiesce"}, {Op: "touch", Typ: "U", ID: "b"}},
+			}})
+		}
 
 		for range tier(250, 6000) {
 			sc := pScenario{Probes: genPipeProbes(r), Cached: r.chance(1, 3)}
